@@ -138,8 +138,10 @@ where
         ensures
             is_suffix(wire(&final(self).inner), wire(&old(self).inner)), // id: wire_only_advances [C02]
             old(self).ff() ==> final(self).ff(), // id: fault_free_kept [C02]
-            res is Ok ==> final(self).inv() && final(self).owed() == old(self).owed() // id: refill_preserves_owed [C01,C02]
-                && (final(self).pending().len() > 0 || (final(self).remaining == 0 && final(self).reached_eof && final(self).owed() == (Seq::<u8>::empty(), true))),
+            res is Ok ==> final(self).inv() && final(self).owed().0 == old(self).owed().0, // id: refill_preserves_owed [C01,C02]
+            res is Ok ==> (final(self).owed().1 ==> old(self).owed().1), // id: refill_never_makes_an_incomplete_body_complete [C02]
+            res is Ok ==> (old(self).owed().1 ==> final(self).owed().1), // id: refill_keeps_a_complete_body_complete [C01]
+            res is Ok ==> (final(self).pending().len() > 0 || (final(self).remaining == 0 && final(self).reached_eof && final(self).owed() == (Seq::<u8>::empty(), true))),
             res is Ok ==> final(self).buffer@.len() <= MAXB, // id: buffer_capped_64k [C05]
             old(self).ff() && old(self).owed().1 ==> res is Ok, // id: wellformed_never_errors [C01]
             res is Ok ==> wire(&old(self).inner).len() - wire(&final(self).inner).len() == demand(old(self).remaining as nat, wire(&old(self).inner)), // id: demand_is_exactly_this_piece [C19]
